@@ -41,6 +41,14 @@ pub fn vec_contains_asset(v: &Vec<AssetInfo>, x: &AssetInfo) -> (r: bool)
     ensures r == list_has(v@, *x),
 { unimplemented!() }
 #[verifier::external_body]
+pub fn vec_prefix_asset(v: &Vec<AssetInfo>, take: usize) -> (r: Vec<AssetInfo>)
+    ensures take <= v@.len(), r@ == v@.subrange(0, take as int),
+{ unimplemented!() }
+#[verifier::external_body]
+pub fn min_usize(a: usize, b: usize) -> (r: usize)
+    ensures r == (if a < b { a } else { b }),
+{ unimplemented!() }
+#[verifier::external_body]
 pub fn vec_position_of_asset(v: &Vec<AssetInfo>, x: &AssetInfo) -> (r: usize)
     ensures r < v@.len(), asset_eq(v@[r as int], *x), forall|j: int| 0 <= j < r ==> !asset_eq(v@[j], *x),
 { unimplemented!() }
@@ -59,6 +67,10 @@ impl Admin {
     #[verifier::external_body]
     pub fn is_admin(&self, deps: Deps, caller: &Addr) -> (r: StdResult<bool>)
         ensures r is Ok ==> r->Ok_0 == (deps.storage.view().admin == Some(*caller)),
+    { unimplemented!() }
+    #[verifier::external_body]
+    pub fn get(&self, deps: Deps) -> (r: StdResult<Option<Addr>>)
+        ensures r is Ok, r->Ok_0 == deps.storage.view().admin,
     { unimplemented!() }
     #[verifier::external_body]
     pub fn set(&self, deps: DepsMut, admin: Option<Addr>) -> (r: StdResult<()>)
